@@ -8,7 +8,7 @@
    Executable definitions only. *)
 From Coq Require Import List NArith ZArith Bool.
 Import ListNotations.
-Require Import Verif.Lib.Wire Verif.Lib.Text Verif.Lib.Utf8 Verif.Lib.Percent Verif.Gen.Facts_C17.
+Require Import Verif.Lib.Wire Verif.Lib.Text Verif.Lib.Utf8 Verif.Lib.Percent Verif.Lib.PathNorm Verif.Gen.Facts_C17.
 Open Scope N_scope.
 
 (* ------------------------------------------------------------------ results *)
@@ -403,6 +403,53 @@ Definition resource_url (c : jcache) (e : env) (names els : list pval) (o : over
 Definition resource_path c e names els o : res text :=
   rlet a := path_app_url resource_path_script_quoted e in
   resource_url c e names els (set_app_url o a).
+
+(* traversal.ResourceURL with a virtual root (X-Vhm-Root header, WSGI latin-1 text) and
+   resource_url(..., route_name=, route_remainder_name=, route_kw=) *)
+Fixpoint tuple_eq (a : list pval) (b : list text) : bool :=
+  match a, b with
+  | [], [] => true
+  | PStr x :: a', y :: b' => text_eqb x y && tuple_eq a' b'
+  | _, _ => false
+  end.
+
+(* -> (virtual_path, virtual_path_tuple) *)
+Definition resource_adapter (names : list pval) (vroot : option text) : res (text * list pval) :=
+  let names := map (fun n => if truthy n then n else PStr []) names in
+  let ppt := match names with [] => [PStr []] | _ => PStr [] :: names ++ [PStr []] end in
+  rlet p := join_path_tuple (PStr [] :: names) in
+  let pp := match names with [] => p | _ => p ++ [47] end in
+  match vroot with
+  | None => Ok (pp, ppt)
+  | Some v =>
+      rlet t := utf8_dec v in                      (* decode_path_info *)
+      let vt := split_path_info t in
+      let n := length vt in
+      if negb (Nat.eqb n 0) && tuple_eq (firstn n (tl ppt)) vt then
+        let vpt := PStr [] :: skipn (S n) ppt in
+        rlet vp := join_path_tuple vpt in Ok (vp, vpt)
+      else Ok (pp, ppt)
+  end.
+
+Definition resource_url_x (c : jcache) (e : env) (routes : list (text * pattern)) (names els : list pval)
+           (o : overrides) (vroot : option text)
+           (rn : option (text * text * option (list (text * kwval)))) : res text :=
+  rlet a := resource_adapter names vroot in
+  let '(vp, vpt) := a in
+  match rn with
+  | Some (route_name, rem_name, route_kw) =>
+      let kw := dupdate [(rem_name, KSeq vpt [])] (match route_kw with Some k => k | None => [] end) in
+      route_url c e routes route_name els o kw
+  | None =>
+      rlet aqf := parse_url_overrides e o in
+      let '(app, qs, fr) := aqf in
+      rlet suffix := match els with [] => Ok [] | _ => join_elements_c c els end in
+      Ok (app ++ vp ++ suffix ++ qs ++ fr)
+  end.
+
+Definition resource_path_x c e routes names els o vroot rn : res text :=
+  rlet a := path_app_url resource_path_script_quoted e in
+  resource_url_x c e routes names els (set_app_url o a) vroot rn.
 
 (* StaticURLInfo.generate, registrations that are routes (url is None) *)
 Fixpoint find_reg (regs : list (text * text)) (path : text) : option (text * text) :=
@@ -845,6 +892,16 @@ Definition run_C17 (v : val) : val :=
         let c := warm_cache w in
         let c' := match els with [] => c | _ => warm_step c els end in
         Some (answer e o (Some els) (resource_url c e names els o) (resource_path c' e names els o))
+    | VL [VI 0%Z; VI 4%Z; e; rs; names; els; o; w; vroot; rn] =>
+        olet e := get_env e in olet rs := get_routes rs in olet names := get_pvals names in olet els := get_pvals els in
+        olet o := get_ov o in olet w := get_list_of get_pvals w in olet vroot := get_opt get_text vroot in
+        olet rn := get_opt (fun v => match v with
+                                     | VL [VT a; VT b; k] => olet k := get_opt get_kw k in Some (a, b, k)
+                                     | _ => None end) rn in
+        let c := warm_cache w in
+        let c' := match els with [] => c | _ => warm_step c els end in
+        Some (answer e o (Some els) (resource_url_x c e rs names els o vroot rn)
+                     (resource_path_x c' e rs names els o vroot rn))
     | VL [VI 0%Z; VI 2%Z; e; rs; regs; VT path; o; kw] =>
         olet e := get_env e in olet rs := get_routes rs in olet regs := get_regs regs in
         olet o := get_ov o in olet kw := get_kw kw in
@@ -869,6 +926,9 @@ Definition run_C17 (v : val) : val :=
                                 put_otext (unquote_text (u_fragment s))]
                   | Err _ => VL []
                   end])
+    | VL [VI 3%Z; VT base; VT ref] =>
+        (* urllib.parse.urljoin alone *)
+        Some (put_res (urljoin base ref))
     | VL [VI 2%Z; VT safe; VT bs] =>
         (* urllib.parse.quote / quote_plus / unquote_to_bytes on bytes *)
         Some (VL [VT (quote safe bs); VT (quote_plus_bytes safe bs); VT (unquote bs)])
